@@ -461,8 +461,24 @@ class E3(object):
         for key in keys:
             self.counts["unique"] += 1
             ok, how, mr = self._guarded(path, e, tbl, key, vals, truth, declared)
-            self.add("unique", "%s [key %s]" % (construct_of(e), ",".join(key)), e, ok,
-                     how, path, mr)
+            conflict = (st.extra.get("or") or "")
+            if conflict and str(conflict).upper() in ("IGNORE", "REPLACE") and table is not None \
+                    and key in declared and "app_id" in table.colnames() and "app_id" not in key:
+                ok = False
+                mr = None
+                how = ("INSERT OR %s on `%s`, whose declared key (%s) is wider than one app: a "
+                       "conflicting row of ANOTHER app is silently %s, and the caller goes "
+                       "on as if the row were its own" % (
+                           str(conflict).upper(), tbl, ",".join(key),
+                           "kept" if str(conflict).upper() == "IGNORE" else "overwritten"))
+            variant = ""
+            if not ok:
+                variant = " !" + ("conflict-clause" if conflict else
+                                  "wider-guard" if "declared unique key" in how or
+                                  "logical key is" in how else
+                                  "unguarded" if "no guarding SELECT" in how else "guard")
+            self.add("unique", "%s [key %s]%s" % (construct_of(e), ",".join(key), variant),
+                     e, ok, how, path, mr)
         # (3) parent insert accompanied by a child insert in the same transaction
         for (ctab, f, pk) in self.children.get(tbl, []):
             if ctab == "nameplates" and tbl == "mailboxes":
